@@ -60,6 +60,7 @@ Qed.
 
 (* ---------------------------------------------------------------- the machine *)
 Section MachineProofs.
+  Variable shared_pat : bool.
   Variable conv0 : bool -> pstr -> xv -> cres.
   Variable dumpv : bool -> xv -> cres.
   Variable iso : dkind -> pstr -> option xv.
@@ -68,14 +69,14 @@ Section MachineProofs.
   Variable mk : dkind * xv -> dkind * xv -> bool.
 
   Notation am' := (am iso fromts).
-  Notation step' := (hstep conv0 dumpv iso fromts strp mk).
-  Notation run' := (hrun conv0 dumpv iso fromts strp mk).
+  Notation step' := (hstep shared_pat conv0 dumpv iso fromts strp mk).
+  Notation run' := (hrun shared_pat conv0 dumpv iso fromts strp mk).
   Notation d_conv' := (d_conv conv0 iso fromts strp mk).
   Notation d_loop' := (d_loop conv0 iso fromts strp mk).
   Notation d_ref' := (d_ref conv0 iso fromts strp mk).
-  Notation do_load' := (do_load conv0 iso fromts strp mk).
+  Notation do_load' := (do_load shared_pat conv0 iso fromts strp mk).
   Notation pure_load' := (pure_load conv0 iso fromts strp mk).
-  Notation pure_hop' := (pure_hop conv0 dumpv iso fromts strp mk).
+  Notation pure_hop' := (pure_hop shared_pat conv0 dumpv iso fromts strp mk).
   Notation vsound := (msound am' mk).
   Notation ksound d := (msound (resolve_x d) pstr_eqb).
 
@@ -145,12 +146,12 @@ Section MachineProofs.
   Definition ann_at (s : hstate) (d : xcdef) : list (nat * dkind) :=
     match g_load (gen_of s (xc_id d)) with
     | Some _ => h_ann s
-    | None => if xc_v1 d then h_ann s else retarget (xc_fields d) (h_ann s)
+    | None => gen_ann shared_pat d (h_ann s)
     end.
 
   Lemma do_load_spec s d doc :
     HInv s -> find_def (h_defs s) (xc_id d) = Some d ->
-    snd (do_load' s d doc) = pure_load' d (ann_name (ann_at s d)) doc
+    snd (do_load' s d doc) = pure_load' d (pat_view shared_pat (ann_at s d)) doc
     /\ HInv (fst (do_load' s d doc)) /\ h_defs (fst (do_load' s d doc)) = h_defs s.
   Proof.
     intros HI Hd. pose proof (gen_of_ok s (xc_id d) d HI Hd) as [Hl Hdk]. destruct HI as [Hg Hm].
@@ -165,7 +166,7 @@ Section MachineProofs.
     - destruct (Hl lg eq_refl) as [Hks Hch]. destruct (xc_v1 d) eqn:V1.
       + rewrite (Hch eq_refl). cbn [fst snd]. split; [reflexivity |]. split; [| reflexivity].
         apply Hset; [| exact Hm]. split; [| exact Hdk]. cbn [g_load]. intros lg' H. injection H as <-. auto.
-      + destruct (d_loop_sound d (ann_name (h_ann s)) doc (lg_keys lg) (h_memo s) [] Hks Hm) as [E1 [S1 S2]].
+      + destruct (d_loop_sound d (pat_view shared_pat (h_ann s)) doc (lg_keys lg) (h_memo s) [] Hks Hm) as [E1 [S1 S2]].
         cbn [fst snd]. rewrite E1. split; [reflexivity |]. split; [| reflexivity].
         apply Hset; [| exact S2]. split; [| exact Hdk]. cbn [g_load]. intros lg' H. injection H as <-.
         cbn [lg_keys]. split; [exact S1 | intro H; congruence].
@@ -175,7 +176,7 @@ Section MachineProofs.
           apply Hset; [| exact Hm]. split; [| exact Hdk]. cbn [g_load]. intros lg' H. injection H as <-.
           cbn [lg_keys lg_chain]. split; [apply msound_nil | auto].
         * cbn [fst snd]. split; [reflexivity |]. split; [split; assumption | reflexivity].
-      + destruct (d_loop_sound d (ann_name (retarget (xc_fields d) (h_ann s))) doc (init_keys d) (h_memo s) []
+      + destruct (d_loop_sound d (pat_view shared_pat (gen_ann shared_pat d (h_ann s))) doc (init_keys d) (h_memo s) []
                                 (init_keys_sound d) Hm) as [E1 [S1 S2]].
         cbn [fst snd lg_keys lg_chain]. rewrite E1. split; [reflexivity |]. split; [| reflexivity].
         apply Hset; [| exact S2]. split; [| exact Hdk]. cbn [g_load]. intros lg' H. injection H as <-.
@@ -296,14 +297,14 @@ Section MachineProofs.
 
   (* ---- when the Pattern view agrees with the class's own positions, the outcome is the reference outcome *)
   Lemma d_conv_agree an an' mt f v :
-    (forall obj fmt k, xf_ty f = FPat obj fmt k -> an obj = an' obj) -> d_conv' an mt f v = d_conv' an' mt f v.
+    (forall obj fmt k, xf_ty f = FPat obj fmt k -> an obj k = an' obj k) -> d_conv' an mt f v = d_conv' an' mt f v.
   Proof.
     intro H. unfold d_conv. destruct (xf_ty f) as [t | k | obj fmt k] eqn:E; try reflexivity.
     rewrite (H obj fmt k eq_refl). reflexivity.
   Qed.
 
   Lemma d_ref_agree d an an' doc :
-    (forall f obj fmt k, In f (xc_fields d) -> xf_ty f = FPat obj fmt k -> an obj = an' obj) ->
+    (forall f obj fmt k, In f (xc_fields d) -> xf_ty f = FPat obj fmt k -> an obj k = an' obj k) ->
     forall kw, d_ref' d an doc kw = d_ref' d an' doc kw.
   Proof.
     intro H. induction doc as [|[k v] r IH]; intro kw; cbn [d_ref]; [reflexivity |].
@@ -314,7 +315,7 @@ Section MachineProofs.
   Qed.
 
   Lemma pure_load_agree d an an' doc :
-    (forall f obj fmt k, In f (xc_fields d) -> xf_ty f = FPat obj fmt k -> an obj = an' obj) ->
+    (forall f obj fmt k, In f (xc_fields d) -> xf_ty f = FPat obj fmt k -> an obj k = an' obj k) ->
     pure_load' d an doc = pure_load' d an' doc.
   Proof.
     intro H. unfold pure_load. destruct (xc_v1 d); [reflexivity |]. rewrite (d_ref_agree d an an' doc H). reflexivity.
@@ -343,3 +344,42 @@ Section MachineProofs.
     erase_ty (snd (step' (run' hinit h) o)) = erase_ty (pure_hop' (h_defs (run' hinit h)) o).
   Proof. apply hstep_out_erased. apply hrun_inv. apply HInv_init. Qed.
 End MachineProofs.
+
+(* ---------------------------------------------------------------- the library's policy: own copy of the pattern per parser *)
+Section LibraryProofs.
+  Variable conv0 : bool -> pstr -> xv -> cres.
+  Variable dumpv : bool -> xv -> cres.
+  Variable iso : dkind -> pstr -> option xv.
+  Variable fromts : dkind -> pstr -> cres.
+  Variable strp : nat -> dkind -> pstr -> option xv.
+  Variable mk : dkind * xv -> dkind * xv -> bool.
+  Hypothesis Hfac : factors (am iso fromts) mk am_cacheable.
+
+  Notation step' := (hstep false conv0 dumpv iso fromts strp mk).
+  Notation run' := (hrun false conv0 dumpv iso fromts strp mk).
+  Notation pure_hop' := (pure_hop false conv0 dumpv iso fromts strp mk).
+
+  (* in an invariant state every operation answers as the cache-free reference: nothing of the state is observable *)
+  Lemma hstep_out_lib s o : HInv iso fromts mk s -> snd (step' s o) = pure_hop' (h_defs s) o.
+  Proof.
+    intro HI. destruct o as [d | c doc | c inst]; cbn [hstep pure_hop].
+    - destruct (find_def (h_defs s) (xc_id d)); reflexivity.
+    - destruct (find_def (h_defs s) c) as [d|] eqn:E; [| reflexivity].
+      destruct (do_load_spec false conv0 iso fromts strp mk Hfac s d doc HI (find_def_self _ _ _ E)) as [E1 _].
+      rewrite E1. reflexivity.
+    - destruct (find_def (h_defs s) c) as [d|] eqn:E; [| reflexivity].
+      destruct (do_dump_spec dumpv iso fromts mk s d inst HI (find_def_self _ _ _ E)) as [E1 _]. exact E1.
+  Qed.
+
+  (* FULL TRANSPARENCY for ALL histories: no side condition, the type an error names included *)
+  Theorem hist_transparent_full h o :
+    snd (step' (run' hinit h) o) = snd (step' (run' hinit (hdefs_all h)) o).
+  Proof.
+    rewrite !hstep_out_lib by (apply (hrun_inv false conv0 dumpv iso fromts strp mk Hfac); apply HInv_init).
+    rewrite (hrun_defs_all false conv0 dumpv iso fromts strp mk h hinit hinit eq_refl). reflexivity.
+  Qed.
+
+  Theorem hist_pure_full h o :
+    snd (step' (run' hinit h) o) = pure_hop' (h_defs (run' hinit h)) o.
+  Proof. apply hstep_out_lib. apply (hrun_inv false conv0 dumpv iso fromts strp mk Hfac). apply HInv_init. Qed.
+End LibraryProofs.
